@@ -2,18 +2,22 @@
 
 use crate::diagnostics::{Diagnostic, Diagnostics, Error};
 use crate::grammar::*;
+use std::collections::HashMap;
 
 pub fn validate_dictionary(dictionary: &Dictionary, diagnostics: &mut Diagnostics) {
     has_allowed_key_type(dictionary, diagnostics);
 }
 
 fn has_allowed_key_type(dictionary: &Dictionary, diagnostics: &mut Diagnostics) {
-    if let Some(e) = check_dictionary_key_type(&dictionary.key_type) {
+    if let Some(e) = check_dictionary_key_type(&dictionary.key_type, &mut HashMap::new()) {
         e.push_into(diagnostics)
     }
 }
 
-fn check_dictionary_key_type(type_ref: &TypeRef) -> Option<Diagnostic> {
+/// Checks whether the provided type can be used as a dictionary key, and returns an error describing why if it can't.
+/// `checked_structs` stores whether the fields of a struct are all valid key types (keyed by the struct's type-id),
+/// so that structs which are used by the fields of multiple other structs only have their fields checked once.
+fn check_dictionary_key_type(type_ref: &TypeRef, checked_structs: &mut HashMap<String, bool>) -> Option<Diagnostic> {
     // Optional types cannot be used as dictionary keys.
     if type_ref.is_optional {
         return Some(Diagnostic::new(Error::KeyMustBeNonOptional).set_span(type_ref.span()));
@@ -27,13 +31,28 @@ fn check_dictionary_key_type(type_ref: &TypeRef) -> Option<Diagnostic> {
                 return Some(Diagnostic::new(Error::StructKeyMustBeCompact).set_span(type_ref.span()));
             }
 
+            // If we've already checked the fields of this struct, there's no need to check them again.
+            let struct_id = struct_def.module_scoped_identifier();
+            match checked_structs.get(&struct_id) {
+                Some(true) => return None,
+                Some(false) => {
+                    let error = Diagnostic::new(Error::StructKeyContainsDisallowedType {
+                        struct_identifier: struct_def.identifier().to_owned(),
+                    })
+                    .set_span(type_ref.span());
+                    return Some(error);
+                }
+                None => {}
+            }
+
             // Check that all the fields of the struct are also valid key types.
             // We collect the invalid fields so we can report them in the error message.
             let errors = struct_def
                 .fields()
                 .into_iter()
-                .filter_map(|field| check_dictionary_key_type(field.data_type()))
+                .filter_map(|field| check_dictionary_key_type(field.data_type(), checked_structs))
                 .collect::<Vec<_>>();
+            checked_structs.insert(struct_id, errors.is_empty());
             if !errors.is_empty() {
                 let mut error = Diagnostic::new(Error::StructKeyContainsDisallowedType {
                     struct_identifier: struct_def.identifier().to_owned(),
